@@ -30,6 +30,8 @@ def _worker(args):
 
 def pool_map(modname, fn, recs, procs=16):
     if not recs: return []
+    for r in recs:          # remembered in the replay file: properties run several engines
+        if isinstance(r, dict): r['_engine'] = [modname, fn]
     ctx = get_context('fork')
     with ctx.Pool(min(procs, max(1, len(recs)))) as p:
         return p.map(_worker, [(modname, fn, r) for r in recs], chunksize=max(1, len(recs) // (procs * 8)))
